@@ -13,7 +13,7 @@ FLOAT_DTYPES = ["<f8", "<f4", "<f2"]
 INT_DTYPES = ["<i8", "<i4", "<i2", "|i1", "<u4", "<u2", "|u1"]
 ALL_DTYPES = ["<f8", "<f4", "<f2", "<i8", "<i4", "<i2", "|i1", "<u8", "<u4", "<u2", "|u1", "|b1",
               "<c8", "<c16", ">f8", ">i4"]
-LAYOUTS = [None, None, None, "F", "neg", "step", "T"]
+LAYOUTS = [None, None, None, "F", "neg", "step", "T", "ro"]
 
 SPECIAL_F8 = [0.0, -0.0, float("inf"), float("-inf"), 5e-324, 2.2250738585072014e-308, 1.0, -1.5]
 
@@ -139,7 +139,8 @@ def metadata(rng, depth=0, maxdepth=3):
         elif r < 0.6:
             v = {"b": rng.random() < 0.5}
         elif r < 0.8:
-            v = arr(rng, shape(rng, maxrank=2) if rng.random() < 0.8 else [], rng.choice(["<f8", "<i8", "<f4", "|b1", "<i4"]))
+            v = arr(rng, shape(rng, maxrank=2) if rng.random() < 0.8 else [],
+                    rng.choice(["<f8", "<i8", "<f4", "|b1", "<i4", ">f4", ">i8", ">f8", "<u2"]))
         elif depth < maxdepth:
             v = metadata(rng, depth + 1, maxdepth)
         else:
@@ -209,14 +210,25 @@ def node_recipe(rng, kind, sh=None, dtype=None, meta_p=0.25):
     lay = lambda: rng.choice(LAYOUTS)
     if kind in ELEMENTWISE:
         s = shape(rng, maxrank=4) if sh is None else sh
+        if sh is None and dtype is None and rng.random() < 0.08:
+            # a one-element integer parameter (its *shape* [1] is what types the node)
+            s = [1] * rng.randrange(1, 3)
+            dtype = rng.choice(["<i8", "<i4", "|u1"])
         kw = [[f, arr(rng, s, dtype or rng.choice(ALL_DTYPES), layout=lay())] for f in ELEMENTWISE[kind]]
     elif kind == "CubaLIF":
         s = shape(rng, maxrank=3) if sh is None else sh
         d = rng.choice(["<f8", "<f8", "<f4"])
         kw = [[f, arr(rng, s, d)] for f in CUBA]
         r = rng.random()
-        if r < 0.35:
+        if r < 0.3:
             pass
+        elif r < 0.38:
+            # an input weight *close to* the default 1.0 but not equal to it
+            n = int(np.prod(s)) if s else 1
+            near = (1.0 + np.array([rng.choice([0.0, 2e-6, -3e-6, 1e-7]) for _ in range(n)])).astype(np.dtype(d))
+            if np.all(near == 1):
+                near.reshape(-1)[0] = np.nextafter(np.dtype(d).type(1), np.dtype(d).type(2))
+            kw.append(["w_in", {"a": d, "sh": list(s), "x": near.tobytes().hex()}])
         elif r < 0.6:
             kw.append(["w_in", arr(rng, s, d)])
         elif r < 0.75 and d == "<f8":
@@ -412,7 +424,7 @@ def node_for_input(rng, in_shape, allow=None):
         if kind == "Conv1d" and in_shape[1] < 1:
             continue
         rec = node_recipe(rng, kind, sh=list(in_shape), meta_p=0.1,
-                          dtype="<f8" if kind in ELEMENTWISE else None)
+                          dtype=(rng.choice(["<f8", "<f8", "<f8", "<i8", "<i4"]) if kind in ELEMENTWISE else None))
         o = out_shape_of(kind, rec, in_shape)
         if min(o + [1]) < 1:
             continue
@@ -433,6 +445,8 @@ def consistent_graph(rng, max_nodes=8, erase=True, wrong_output=True):
         s = shape(rng, rank=rng.randrange(1, 4), lo=1, hi=6)
         if rng.random() < 0.5:
             s = [rng.randrange(1, 3), rng.randrange(4, 12), rng.randrange(4, 12)]
+        elif rng.random() < 0.15:
+            s = [1] * rng.randrange(1, 3)             # one-element signals
         name = f"in{i}" if rng.random() < 0.7 else rng.choice(["input", "é", "x y"]) + str(i)
         nodes.append([name, {"type": "Input", "kwargs": [["input_type", shape_arg(rng, s, "input")]]}])
         truth[name] = (list(s), list(s))
